@@ -306,6 +306,25 @@ def skipto_fail_on(ctx):
                           {"kind": "skipto-fail-on"})
 
 
+def each_named_repetition_with_each(ctx):
+    """F-01c: giving a results name to a OneOrMore operand of '&' whose body contains another '&' changes what is accepted"""
+    import pyparsing as pp
+
+    def run(e, s):
+        try:
+            return e.parse_string(s).as_list()
+        except pp.ParseBaseException as x:
+            return type(x).__name__
+    mk = lambda: pp.Literal("x") + pp.Each([pp.ZeroOrMore(pp.CaselessLiteral("aB"))])
+    plain = run(pp.ZeroOrMore("a") & pp.OneOrMore(mk()), "ax")
+    named = run(pp.ZeroOrMore("a") & pp.OneOrMore(mk())("x"), "ax")
+    ctx.case("each-named-repetition", True, True)
+    if plain != named:
+        ctx.violation("each:named-repetition-operand-containing-each",
+                      "ZeroOrMore('a') & OneOrMore('x' + Each([ZeroOrMore(CaselessLiteral('aB'))])) on 'ax' gives %r; with the results name 'x' on the OneOrMore "
+                      "it gives %r" % (plain, named), {"kind": "each-named-rep"})
+
+
 def each_impl(g, inp):
     import pyparsing as pp
     from tools.harness import build
@@ -340,6 +359,7 @@ def correspond(ctx):
     recs = run(ctx, groups)
     each_family(ctx)
     each_nullable_operand(ctx)
+    each_named_repetition_with_each(ctx)
     skipto_fail_on(ctx)
     for r in [x for x in recs if x["entry"][0] == "parse"][200:203]:
         ctx.sample({"grammar": r["g"], "input": r["inp"], "impl": peg_of_real(r["real"])})
@@ -374,6 +394,13 @@ def replay(ctx, obj):
         print("implementation:", got)
         print("PEG reading   :", want)
         return want == got
+    if r.get("kind") == "each-named-rep":
+        c2 = vlib.Ctx(PROP, "quick", 0)
+        c2.known = {}
+        each_named_repetition_with_each(c2)
+        for v in c2.violations:
+            print(v["what"])
+        return not c2.violations
     if r.get("kind") == "each-nullable":
         c2 = vlib.Ctx(PROP, "quick", 0)
         c2.known = {}
